@@ -65,6 +65,29 @@ def run(cap):
     if nfail_oracle:
         out.append(rec("oracle integral curve converged", cls, nfail_oracle, nfail_oracle, 0, sig="gradcurve failed"))
     out.append(rec("region kinds reached", cls + "|" + "+".join(sorted(kinds)), len(kinds), 0, 0))
+    # the radial line continues across the separatrix: the last contour of a region and the first
+    # contour of its outer neighbour are the same skeleton points (in-domain rows)
+    myg = int(o.y_boundary_guards)
+    wc = 0.0
+    nc_ = 0
+    for rid, region in mesh.regions.items():
+        oid = region.connections["outer"]
+        if oid is None:
+            continue
+        og = mesh.regions[oid]
+        PA = np.array([[p.R, p.Z] for p in region.contours[-1]])
+        PB = np.array([[p.R, p.Z] for p in og.contours[0]])
+        d = np.hypot(PA[:, 0] - PB[:, 0], PA[:, 1] - PB[:, 1])
+        dom = np.ones(len(d), bool)
+        if region.connections["lower"] is None:
+            dom[: 2 * myg] = False
+        if region.connections["upper"] is None:
+            dom[len(d) - 2 * myg :] = False
+        if dom.any():
+            wc = max(wc, amax(d[dom]))
+            nc_ += int(dom.sum())
+    if nc_:
+        out.append(rec("radial grid lines continue across region boundaries (same skeleton point on both sides)", cls, nc_, wc, 1e-6, note="in-domain rows; both regions follow grad(psi) from the same separatrix point"))
     # ---- file-level: radial grid direction parallel to grad psi (second order) ----------
     wang = 0.0
     nang = 0
